@@ -90,7 +90,7 @@ def bypass_all_but(exceptions):
     return [o for o in BYPASS_ALL if o not in exceptions]
 
 
-# verbatim DEFAULT_SETTINGS of bert_e/tests/test_bert_e.py
+# DEFAULT_SETTINGS of bert_e/tests/test_bert_e.py ({jira} = its jira_* keys)
 SETTINGS_TEMPLATE = """
 repository_owner: {owner}
 repository_slug: {slug}
@@ -107,15 +107,17 @@ prefixes:
   Story: feature
   Bug: bugfix
   Improvement: improvement
-jira_account_url: dummy
-jira_email: dummy@mail.com
-jira_keys:
-  - TEST
-admins:
+{jira}admins:
   - {admin}
 project_leaders:
   - {admin}
 """  # noqa
+
+JIRA_SETTINGS = """jira_account_url: dummy
+jira_email: dummy@mail.com
+jira_keys:
+  - TEST
+"""
 
 JOB_KINDS = {
     'rebuild_queues': RebuildQueuesJob,
@@ -145,7 +147,7 @@ class World:
 
     def __init__(self, cascade=('4.3', '5.1', '10.0'), stabilization=False,
                  use_queue=True, options=(), settings_extra='',
-                 foreign_branches=('user/foo',)):
+                 foreign_branches=('user/foo',), jira_checks=False):
         """
         cascade: versions of the development/<v> branches, oldest first; each
             branch is created on top of the previous one (plus one commit).
@@ -157,6 +159,11 @@ class World:
             ``bypass_all_but(['bypass_build_status'])``; [] = none: the pull
             request then needs real approvals (see ``approve``).
         settings_extra: yaml text appended to the upstream sample settings.
+        jira_checks: keep the jira_* keys of the upstream sample settings
+            (the offline Jira mock only knows fix versions 5.1.4 / 10.0.1,
+            which match upstream's tagged test repository, not this one: with
+            them every evaluation without bypass_jira_check ends in
+            IncorrectFixVersion).  Default: no Jira settings = no Jira check.
         """
         if _ALIVE[0] is not None:
             raise RuntimeError('only one World per process (the mock host '
@@ -183,13 +190,15 @@ class World:
         self._saved_jira = jira_api.JiraIssue
         self.root = tempfile.mkdtemp(prefix='berte_world_')
         try:
-            self._setup(stabilization, settings_extra, foreign_branches)
+            self._setup(stabilization, settings_extra, foreign_branches,
+                        jira_checks)
         except BaseException:
             self.close()
             raise
 
     # ------------------------------------------------------------------ #
-    def _setup(self, stabilization, settings_extra, foreign_branches):
+    def _setup(self, stabilization, settings_extra, foreign_branches,
+               jira_checks):
         _ALIVE[0] = self
         home = os.path.join(self.root, 'home')
         tmp = os.path.join(self.root, 'tmp')
@@ -216,7 +225,8 @@ class World:
         with open(self.settings_path, 'w') as f:
             f.write(SETTINGS_TEMPLATE.format(
                 owner=OWNER, slug=SLUG, host='mock', robot=ROBOT,
-                admin=ADMIN) + (settings_extra or ''))
+                admin=ADMIN, jira=JIRA_SETTINGS if jira_checks else '') +
+                (settings_extra or ''))
 
         def client(user):
             return client_factory('mock', user, PASSWORD, 'nobody@nowhere.com')
